@@ -1,9 +1,2 @@
-TEXT = {
- "C14": {
-  "level": "Machine-checked Coq theorems (11, all closed under the global context) about an executable Gallina model of percent_encoding: round trip for every set containing '%', exact output form and ASCII-ness, homomorphism, split law, agreement of iterator/Display/Cow/size_hint/if_any views, borrow-iff-unchanged, and the bit-mask set algebra on the 128 ASCII values - for all byte strings and all sets, no length bound. ENC_TABLE and the AsciiSet constants are regenerated from the Rust source on every run and the table theorem re-proved. The model is tied to the code by a correspondence run (exhaustive small scopes + random) of the extracted model against the crate built from /repo.",
-  "design_ref": "DESIGN.md section 8 C14, sections 4 and 6",
-  "note": "Trusted: Coq kernel + vm_compute; translator gen_tables.py; extraction (ExtrOcamlBasic only) + OCaml driver; the correspondence generators; std's UTF-8 validation is modelled (Base/Utf8.v) and cross-checked, not verified. C14_split is proved under a sufficient condition (no '%' among the last two bytes of the left part). Known finding F-C14-1: add/remove of a non-ASCII byte panics.",
-  "technique": "Coq proof over Gallina model + table translator + extracted-model/implementation correspondence",
- },
-}
+# reasons for properties not (yet) claimed; the per-property manifest texts live in tools/props_d/Cxx.py
 NOT_YET = {}
